@@ -186,6 +186,9 @@ func (r *reference) resolve(cfg *Config, opts *options) (value, error) {
 }
 
 func (r *reference) eval(cfg *Config, opts *options) (string, error) {
+	// the reference is active only while its value is being evaluated
+	defer opts.scopeActiveFields()()
+
 	v, err := r.resolve(cfg, opts)
 	if err != nil {
 		return "", err
@@ -254,7 +257,9 @@ func (e *expansionAlt) eval(cfg *Config, opts *options) (string, error) {
 	}
 
 	ref := newReference(parsePath(path, e.pathSep, opts.maxIdx, opts.enableNumKeys, opts.escapePath))
+	closeScope := opts.scopeActiveFields()
 	tmp, err := ref.resolve(cfg, opts)
+	closeScope()
 	if err != nil || tmp == nil {
 		return "", nil
 	}
